@@ -552,6 +552,7 @@ func init() {
 			}
 			var res AdmitResult
 			json.Unmarshal(r.Res, &res)
+			attachItem(res.Viol, "admit", raw[r.Index])
 			tot.States += res.States
 			tot.Attempts += res.Attempts
 			tot.Accepted += res.Accepted
